@@ -10,6 +10,7 @@ LEVEL = 'other'
 
 
 def run(ctx, out):
+    run_m(ctx, out)
     ns = [2, 3, 4] if ctx.quick() else [2, 3, 4, 5]
     hs = ['graph::verif_kani::dedup_%d' % n for n in ns]
     ks = run_k(ctx, out, hs, timeout=600 if ctx.quick() else 2400)
@@ -23,9 +24,97 @@ def run(ctx, out):
         'obligations': sum(k['checks'] for k in ks),
         'discharged': sum(k['checks'] for k in ks if k['status'] == 'PASS'),
         'solver_s': round(sum(k['solver_s'] for k in ks), 1),
-        'evaluations': len(ks), 'distinct_nontrivial': len(ks),
+        'evaluations': len(ks) + out.coverage.get('paths', 0), 'distinct_nontrivial': len(ks) + out.coverage.get('paths', 0),
         'rule': 'one Kani harness per vector length; each is a single solver verdict over all inputs of that length',
         'samples': [{'harness': k['harness'], 'status': k['status'], 'checks': k['checks']} for k in ks],
         'outside_the_claim': ['vectors longer than %d outputs' % max(ns)],
     })
     out.assumptions += ['Kani/CBMC model of Vec and the allocator', 'ids restricted to n distinct values (w.l.o.g.: only equality of ids is observed)']
+
+
+# ---------------------------------------------------------------------------------------------------- engine M part
+import re as _re
+
+import mirsym as M
+from lib.mcheck import Replayer, load_interp
+from checks import manifestlib as ML
+from checks.manifestlib import B, Loaded, ManifestHarness, Text, bytes_eq, show
+from checks.C10 import run_family, LL_msg
+
+SPELL = {0: lambda n: B(n), 1: lambda n: B('./') + B(n), 2: lambda n: B('x/../') + B(n), 3: lambda n: B(n)}
+
+
+class Duplicates(ManifestHarness):
+    """outputs repeated inside one statement (any multiplicity / position / spelling) and across two statements"""
+
+    def generate(self, I):
+        n = 2 + I.choose('nouts', self.max_extra)         # 2..4 output slots
+        names = [['a', 'b'][I.choose('out%d' % k, 2)] for k in range(n)]
+        spell = [I.choose('sp%d' % k, self.nspell) for k in range(n)]
+        nexp = 1 + I.choose('nexplicit', n)               # 1..n explicit, rest implicit
+        second = I.choose('second', 4)                    # 0 none | 1 other file | 2 same file 'a' | 3 same file, other spelling
+        t = Text().add('rule r\n  command = c\n').add('build')
+        for k in range(n):
+            if k == nexp:
+                t.add(' |')
+            t.add(' ').add(SPELL[spell[k]](names[k]))
+        t.add(': r i\n')
+        if second == 1:
+            t.add('build z: r j\n')
+        elif second == 2:
+            t.add('build ').add(names[0]).add(': r j\n')
+        elif second == 3:
+            t.add('build w ./').add(names[0]).add(': r j\n')
+        first = []
+        for k, nm in enumerate(names):
+            if nm not in [x for x, _ in first]:
+                first.append((nm, k))
+        want_outs = [B(nm) for nm, _ in first]
+        want_explicit = sum(1 for nm, k in first if k < nexp)
+        nrepeats = n - len(first)
+
+        def expect(I, r):
+            ex = self.extra()
+            if second in (2, 3):
+                if r.variant == 'Ok':
+                    I.fail('second-producer-accepted', 'two build statements produce %r and the manifest is accepted' % names[0], extra=ex)
+                msg = ML.LL.msg_bytes(r.fields[0])
+                if not (_re.search(rb'build\.ninja:4', msg) and _re.search(rb'build\.ninja:3', msg) and names[0].encode() in msg and b'already an output' in msg):
+                    I.fail('second-producer-message', 'the error does not cite the file and both statements: %r' % msg[:160], extra=ex)
+                return 'rejected'
+            if r.variant != 'Ok':
+                I.fail('rejected', 'a manifest repeating an output inside one statement is rejected: %r' % LL_msg(r), extra=ex)
+            ld = Loaded(self.L, r.fields[0])
+            b = ld.build(0)
+            if not b['explicit_count_ok']:
+                I.fail('explicit-count', 'explicit output count exceeds the number of outputs', extra=ex)
+            got = b['explicit_outs'] + b['implicit_outs']
+            if [show(x) for x in got] != [show(x) for x in want_outs]:
+                I.fail('outputs-not-deduplicated', 'outputs %r, expected each file once in first-occurrence order %r' % ([show(x) for x in got], [show(x) for x in want_outs]), extra=ex)
+            if len(b['explicit_outs']) != want_explicit:
+                I.fail('explicit-count', '%d explicit outputs, expected %d' % (len(b['explicit_outs']), want_explicit), extra=ex)
+            warns = [w for w in self.stdout if b'is repeated in output list' in w]
+            if len(warns) != nrepeats:
+                I.fail('warnings', '%d repeat warnings printed for %d repeats: %r' % (len(warns), nrepeats, self.stdout), extra=ex)
+            return 'ok'
+        return t.bs, {}, expect
+
+
+def run_m(ctx, out):
+    I = load_interp(ctx)
+    rep = Replayer(ctx.tree)
+    H = Duplicates(I, ctx.tree)
+    H.max_extra, H.nspell = (2, 2) if ctx.quick() else (3, 3)
+    run_family(ctx, out, I, rep, H, 'M: repeated outputs within one statement and across two (spellings x multiplicity x explicit/implicit boundary)')
+    rep.close()
+
+
+def replay(ctx, cex):
+    r = cex['replay']
+    if 'cmd' in r:
+        from checks.C10 import replay as rp
+        return rp(ctx, cex)
+    from lib import kani
+    rep, detail = kani.replay_native(ctx.tree, r['harness'])
+    print(('REPRODUCED: ' if rep else 'NOT-REPRODUCED: ') + str(detail))
+    return 1 if rep else 0
